@@ -16,6 +16,116 @@
 #define MAXS 6
 #define MAXES 4
 enum { U_ULT, U_TASK };
+/* ======================================================================= context canaries (C02)
+ * abtv_canary_call(fn, arg, in, out) loads in[0..5] into the callee-saved
+ * registers rbx, rbp, r12..r15, in[6] into MXCSR and in[7] into the x87 control
+ * word, calls fn(arg) -- which performs one context-switching primitive -- and
+ * stores what it finds in the same places afterwards into out[].  Whatever
+ * happened in between (other ULTs, schedulers, other streams), a ULT must come
+ * back with its callee-saved registers and floating-point control state as it
+ * left them. */
+long abtv_canary_call(long (*fn)(void *), void *arg, const uint64_t *in, uint64_t *out);
+__asm__(".text\n"
+        ".globl abtv_canary_call\n"
+        ".type abtv_canary_call,@function\n"
+        "abtv_canary_call:\n"
+        "    pushq %rbx\n    pushq %rbp\n    pushq %r12\n    pushq %r13\n    pushq %r14\n    pushq %r15\n"
+        "    subq $40, %rsp\n"
+        "    movq %rcx, 0(%rsp)\n"
+        "    stmxcsr 8(%rsp)\n"
+        "    fnstcw 12(%rsp)\n"
+        "    movq %rdi, 16(%rsp)\n"
+        "    movq 0(%rdx), %rbx\n    movq 8(%rdx), %rbp\n    movq 16(%rdx), %r12\n"
+        "    movq 24(%rdx), %r13\n    movq 32(%rdx), %r14\n    movq 40(%rdx), %r15\n"
+        "    ldmxcsr 48(%rdx)\n"
+        "    fldcw 56(%rdx)\n"
+        "    movq %rsi, %rdi\n"
+        "    callq *16(%rsp)\n"
+        "    movq 0(%rsp), %rcx\n"
+        "    movq %rbx, 0(%rcx)\n    movq %rbp, 8(%rcx)\n    movq %r12, 16(%rcx)\n"
+        "    movq %r13, 24(%rcx)\n    movq %r14, 32(%rcx)\n    movq %r15, 40(%rcx)\n"
+        "    movq $0, 48(%rcx)\n    movq $0, 56(%rcx)\n"
+        "    stmxcsr 48(%rcx)\n"
+        "    fnstcw 56(%rcx)\n"
+        "    ldmxcsr 8(%rsp)\n"
+        "    fldcw 12(%rsp)\n"
+        "    addq $40, %rsp\n"
+        "    popq %r15\n    popq %r14\n    popq %r13\n    popq %r12\n    popq %rbp\n    popq %rbx\n"
+        "    ret\n"
+        ".size abtv_canary_call,.-abtv_canary_call\n");
+enum { PK_YIELD, PK_SELF_YIELD, PK_YIELD_TO, PK_THREAD_YIELD_TO, PK_SUSPEND, PK_SUSPEND_TO, PK_EXIT_TO, PK_RESUME_YIELD_TO, PK_RESUME_SUSPEND_TO,
+       PK_RESUME_EXIT_TO, PK_CREATE_TO, PK_REVIVE_TO, PK_JOIN, PK_FREE, PK_MUTEX, PK_EVENTUAL };
+typedef struct {
+    int kind;
+    ABT_thread th, *pth;
+    ABT_pool pool;
+    void (*f)(void *);
+    void *arg;
+    ABT_thread_attr attr;
+    ABT_mutex mx;
+    ABT_eventual ev;
+} prim_t;
+static long prim_thunk(void *q)
+{
+    prim_t *p = (prim_t *)q;
+    switch (p->kind) {
+        case PK_YIELD: return ABT_thread_yield();
+        case PK_SELF_YIELD: return ABT_self_yield();
+        case PK_YIELD_TO: return ABT_self_yield_to(p->th);
+        case PK_THREAD_YIELD_TO: return ABT_thread_yield_to(p->th);
+        case PK_SUSPEND: return ABT_self_suspend();
+        case PK_SUSPEND_TO: return ABT_self_suspend_to(p->th);
+        case PK_EXIT_TO: return ABT_self_exit_to(p->th);
+        case PK_RESUME_YIELD_TO: return ABT_self_resume_yield_to(p->th);
+        case PK_RESUME_SUSPEND_TO: return ABT_self_resume_suspend_to(p->th);
+        case PK_RESUME_EXIT_TO: return ABT_self_resume_exit_to(p->th);
+        case PK_CREATE_TO: return ABT_thread_create_to(p->pool, p->f, p->arg, p->attr, p->pth);
+        case PK_REVIVE_TO: return ABT_thread_revive_to(p->pool, p->f, p->arg, p->pth);
+        case PK_JOIN: return ABT_thread_join(p->th);
+        case PK_FREE: return ABT_thread_free(p->pth);
+        case PK_MUTEX: return ABT_mutex_lock(p->mx);
+        default: return ABT_eventual_wait(p->ev, NULL);
+    }
+}
+static const char *const PK_NAME[] = { "yield", "self_yield", "yield_to", "thread_yield_to", "suspend", "suspend_to", "exit_to", "resume_yield_to",
+                                       "resume_suspend_to", "resume_exit_to", "create_to", "revive_to", "join", "free", "mutex_lock", "eventual_wait" };
+static volatile unsigned g_canary_n;
+/* performs the primitive with live canaries; *flags = what came back intact (bit 0 registers, 1 MXCSR, 2 x87 CW) */
+static int ccall_q(int u, prim_t *p, int *flags)
+{
+    uint64_t in[8], out[8];
+    unsigned n = __sync_add_and_fetch(&g_canary_n, 1);
+    for (int i = 0; i < 6; i++)
+        in[i] = 0xC0DE000000000000ULL ^ ((uint64_t)u << 40) ^ ((uint64_t)n << 8) ^ (uint64_t)(i + 1) * 0x0101010101ULL;
+    /* MXCSR: all exceptions masked, rounding mode and flush-to-zero / denormals-are-zero vary */
+    in[6] = 0x1F80u | ((n & 3u) << 13) | ((n >> 2 & 1u) << 15) | ((n >> 3 & 1u) << 6);
+    /* x87 control word: all exceptions masked, precision and rounding control vary */
+    in[7] = 0x003Fu | 0x0040u | (((n >> 1 & 1u) ? 3u : 2u) << 8) | ((n >> 2 & 3u) << 10);
+    long r = abtv_canary_call(prim_thunk, p, in, out);
+    int regs = 1;
+    for (int i = 0; i < 6; i++)
+        regs &= in[i] == out[i];
+    int mx = (in[6] & 0xFFC0u) == (out[6] & 0xFFC0u);
+    int cw = (in[7] & 0xFFFFu) == (out[7] & 0xFFFFu);
+    *flags = regs | mx << 1 | cw << 2;
+    return (int)r;
+}
+static void ctx_log(int u, int kind, int flags)
+{
+    int rank = -1;
+    ABT_xstream_self_rank(&rank);
+    EV("\"e\":\"Ctx\",\"u\":%d,\"prim\":\"%s\",\"regs\":%d,\"mxcsr\":%d,\"x87\":%d,\"es\":%d", u, PK_NAME[kind], flags & 1, flags >> 1 & 1, flags >> 2 & 1, rank);
+}
+/* ... and logs it at once */
+static int ccall(int u, prim_t *p)
+{
+    int flags = 0;
+    int r = ccall_q(u, p, &flags);
+    ctx_log(u, p->kind, flags);
+    return r;
+}
+#define CC1(u, k, t) ccall((u), &(prim_t){ .kind = (k), .th = (t) })
+
 enum { OP_YIELD, OP_CREATE, OP_FREE, OP_JOIN, OP_REVIVE, OP_SUSPEND, OP_EXIT, OP_LOOP, OP_SUSPLOOP, OP_POINT };
 typedef struct {
     int op, k;
@@ -173,9 +283,11 @@ static void run_script(unit_t *u, int inc)
         switch (o->op) {
             case OP_YIELD:
                 for (int k = 0; k < o->k; k++) {
+                    int fl = 0;
                     EV("\"e\":\"Yield\",\"u\":%d", who);
-                    CHK(ABT_thread_yield());
+                    CHK(ccall_q(who, &(prim_t){ .kind = PK_YIELD }, &fl));
                     EV("\"e\":\"Back\",\"u\":%d", who);
+                    ctx_log(who, PK_YIELD, fl);
                 }
                 break;
             case OP_POINT:
@@ -187,8 +299,12 @@ static void run_script(unit_t *u, int inc)
             case OP_SUSPEND:
                 EV("\"e\":\"Suspend\",\"u\":%d", who);
                 u->want_resume = 1;
-                CHK(ABT_self_suspend());
-                EV("\"e\":\"Resumed\",\"u\":%d", who);
+                {
+                    int fl = 0;
+                    CHK(ccall_q(who, &(prim_t){ .kind = PK_SUSPEND }, &fl));
+                    EV("\"e\":\"Resumed\",\"u\":%d", who);
+                    ctx_log(who, PK_SUSPEND, fl);
+                }
                 break;
             case OP_LOOP:
                 /* runs until cancelled */
@@ -713,7 +829,7 @@ static void sw_new_unit(int by, int id, int to)
         n->stt = S_RUN;
         g_exp_of = by;
         EV("\"e\":\"Prim\",\"u\":%d,\"op\":\"create_to\",\"t\":%d,\"arg\":%d,\"pool\":%d", by, id, id * 10, n->home);
-        CHK(ABT_thread_create_to(SW_POOL(n->home), sw_entry, n, attr, &n->th));
+        CHK(ccall(by, &(prim_t){ .kind = PK_CREATE_TO, .pool = SW_POOL(n->home), .f = sw_entry, .arg = n, .attr = attr, .pth = &n->th }));
     } else {
         n->stt = S_NEW;
         EV("\"e\":\"Create\",\"by\":%d,\"u\":%d,\"kind\":0,\"named\":1,\"arg\":%d,\"pool\":%d", by, id, id * 10, n->home);
@@ -752,17 +868,17 @@ static int sw_step(sw_t *me)
             if (k == 0) {
                 me->stt = S_PARKED;
                 EV("\"e\":\"Prim\",\"u\":%d,\"op\":\"yield_to\",\"t\":%d,\"arg\":0", me->id, T->id);
-                CHK(ABT_self_yield_to(T->th));
+                CHK(CC1(me->id, PK_YIELD_TO, T->th));
             } else if (k == 1) {
                 me->stt = S_BLOCKED;
                 me->plain = 0;
                 me->claim = 0;
                 EV("\"e\":\"Prim\",\"u\":%d,\"op\":\"suspend_to\",\"t\":%d,\"arg\":0", me->id, T->id);
-                CHK(ABT_self_suspend_to(T->th));
+                CHK(CC1(me->id, PK_SUSPEND_TO, T->th));
             } else {
                 me->stt = S_DONE;
                 EV("\"e\":\"Prim\",\"u\":%d,\"op\":\"exit_to\",\"t\":%d,\"arg\":0", me->id, T->id);
-                CHK(ABT_self_exit_to(T->th));
+                CHK(CC1(me->id, PK_EXIT_TO, T->th));
                 abtv_fail("crash:exit_to-returned", ABTV_EXIT_CRASH);
             }
             sw_run_event(me);
@@ -786,17 +902,17 @@ static int sw_step(sw_t *me)
             if (k == 1) {
                 me->stt = S_PARKED;
                 EV("\"e\":\"Prim\",\"u\":%d,\"op\":\"resume_yield_to\",\"t\":%d,\"arg\":0", me->id, b);
-                CHK(ABT_self_resume_yield_to(B->th));
+                CHK(CC1(me->id, PK_RESUME_YIELD_TO, B->th));
             } else if (k == 2) {
                 me->stt = S_BLOCKED;
                 me->plain = 0;
                 me->claim = 0;
                 EV("\"e\":\"Prim\",\"u\":%d,\"op\":\"resume_suspend_to\",\"t\":%d,\"arg\":0", me->id, b);
-                CHK(ABT_self_resume_suspend_to(B->th));
+                CHK(CC1(me->id, PK_RESUME_SUSPEND_TO, B->th));
             } else {
                 me->stt = S_DONE;
                 EV("\"e\":\"Prim\",\"u\":%d,\"op\":\"resume_exit_to\",\"t\":%d,\"arg\":0", me->id, b);
-                CHK(ABT_self_resume_exit_to(B->th));
+                CHK(CC1(me->id, PK_RESUME_EXIT_TO, B->th));
                 abtv_fail("crash:resume_exit_to-returned", ABTV_EXIT_CRASH);
             }
             sw_run_event(me);
@@ -822,7 +938,7 @@ static int sw_step(sw_t *me)
             me->stt = S_PARKED;
             g_exp_of = me->id;
             EV("\"e\":\"Prim\",\"u\":%d,\"op\":\"revive_to\",\"t\":%d,\"arg\":%d,\"pool\":%d", me->id, d, d * 10 + D->inc, D->home);
-            CHK(ABT_thread_revive_to(SW_POOL(D->home), sw_entry, D, &D->th));
+            CHK(ccall(me->id, &(prim_t){ .kind = PK_REVIVE_TO, .pool = SW_POOL(D->home), .f = sw_entry, .arg = D, .pth = &D->th }));
             sw_run_event(me);
             return 1;
         } else if (op == 8) {
@@ -835,13 +951,13 @@ static int sw_step(sw_t *me)
             T->stt = S_RUN;
             g_exp_of = me->id;
             EV("\"e\":\"Prim\",\"u\":%d,\"op\":\"thread_yield_to\",\"t\":%d,\"arg\":0", me->id, t);
-            CHK(ABT_thread_yield_to(T->th));
+            CHK(CC1(me->id, PK_THREAD_YIELD_TO, T->th));
             sw_run_event(me);
             return 1;
         } else if (op <= 10) {
             me->stt = S_PARKED;
             EV("\"e\":\"Prim\",\"u\":%d,\"op\":\"yield\",\"t\":0,\"arg\":0", me->id);
-            CHK(rnd(2) ? ABT_self_yield() : ABT_thread_yield());
+            CHK(CC1(me->id, rnd(2) ? PK_SELF_YIELD : PK_YIELD, ABT_THREAD_NULL));
             sw_run_event(me);
             return 1;
         } else {
@@ -851,7 +967,7 @@ static int sw_step(sw_t *me)
             me->claim = 0;
             EV("\"e\":\"Prim\",\"u\":%d,\"op\":\"suspend\",\"t\":0,\"arg\":0", me->id);
             me->stt = S_BLOCKED;
-            CHK(ABT_self_suspend());
+            CHK(CC1(me->id, PK_SUSPEND, ABT_THREAD_NULL));
             sw_run_event(me);
             return 1;
         }
@@ -863,7 +979,9 @@ static void sw_entry(void *arg)
     sw_t *me = (sw_t *)arg;
     int rank = -1;
     ABT_xstream_self_rank(&rank);
-    EV("\"e\":\"Start\",\"u\":%d,\"arg\":%d,\"es\":%d,\"n\":1", me->id, me->id * 10 + me->inc, rank);
+    /* the frame address at entry of a ULT function: (fp + 16) % 16 == 0 by the ABI */
+    int sp16 = (int)(((uintptr_t)__builtin_frame_address(0) + 16) % 16);
+    EV("\"e\":\"Start\",\"u\":%d,\"arg\":%d,\"es\":%d,\"n\":1,\"sp16\":%d", me->id, me->id * 10 + me->inc, rank, sp16);
     sw_run_event(me);
     while (sw_step(me))
         ;
@@ -938,7 +1056,7 @@ static void scn_switch(void)
                 me->stt = S_PARKED;
                 g_exp_of = SW_PRIMARY;
                 EV("\"e\":\"Prim\",\"u\":%d,\"op\":\"yield_to\",\"t\":%d,\"arg\":0", SW_PRIMARY, T->id);
-                CHK(ABT_self_yield_to(T->th));
+                CHK(CC1(me->id, PK_YIELD_TO, T->th));
                 sw_run_event(me);
                 continue;
             }
